@@ -188,6 +188,13 @@ def goPackageAlias (path : String) : String :=
   | [] => "pkg"
   | c :: _ => if Mangle.isAsciiDigit c then String.ofList ('_' :: al) else String.ofList al
 
+/-- `go_import_alias`: the import binds the qualifier explicitly when it is not the last path segment
+    (`gopkg.in/yaml.v3` is used as `yaml_v3`); `"-"` = no alias, as dumped by `godump.rs` -/
+def goImportAlias (path : String) : String :=
+  let last := String.ofList (((Mangle.splitOn '/' path.toList).getLast?).getD path.toList)
+  let al := goPackageAlias path
+  if al == last then "-" else al
+
 /-! ## types (`goast::tast_ty_to_go_type`) -/
 
 mutual
@@ -1221,7 +1228,7 @@ def goFilePreSt (env : Env) (file : AFile) (n : Nat) : GFile × St :=
     if env.externFns.isEmpty && env.externTys.isEmpty then base
     else
       let extra := extraImportPaths env (existingImports base)
-      if extra.isEmpty then base else addImports (extra.map fun p => ("-", p)) base
+      if extra.isEmpty then base else addImports (extra.map fun p => (goImportAlias p, p)) base
   let req := collectDynRequirements file
   let fns := compileFns env { n := n, ok := true } file
   let ok := fns.2.ok && okArrayRuntime rt.arrays && okRefRuntime rt.refs && rt.tuples.all okTy &&
